@@ -3,7 +3,7 @@
 cd /verif
 for P in "$@"; do
   ok=1
-  for s in 1 2 3; do
+  for s in ${SEEDS:-1 2 3}; do
     t0=$(date +%s)
     VERIF_SEED=$s timeout 3000 ./check $P --tier quick > .cache/tmp/integrate-$P-$s.log 2>&1
     rc=$?
